@@ -261,6 +261,11 @@ func reflectIntrinsic(eng *Engine, fn *ssa.Function, name string) intrinsic {
 // ---- globals and package initialisation ----
 
 func (it *Interp) globalCell(g *ssa.Global) *Cell {
+	if it.localGlobals != nil {
+		if c, ok := it.localGlobals[g]; ok {
+			return c
+		}
+	}
 	eng := it.eng
 	if it.initMode {
 		// already holding the init lock
